@@ -249,7 +249,7 @@ class CFG(MutableSet[Edge]):
             proto_edge = CFG_pb2.Edge()
             proto_edge.source_uuid = s.uuid.bytes
             proto_edge.target_uuid = t.uuid.bytes
-            if l:
+            if l is not None:
                 proto_edge.label.type = l.type.value
                 proto_edge.label.conditional = l.conditional
                 proto_edge.label.direct = l.direct
